@@ -662,20 +662,41 @@ def add_bign(l96=False):
     def siglen(l):
         return 34 if l == 96 else 3 * l // 8
 
+    # "\expect{ERR_BAD_INPUT} Буферы sig и hash не пересекаются." - adjacent buffers are disjoint (accepted), one octet in common is an overlap
+    def sig_hash(x, c, v, l):
+        hl, sl = l // 4, siglen(l)
+        H = expand(c["seed"] + "h", hl)
+        pl = v.get("place", "apart")
+        if pl == "hash_sig":
+            blk = x.buf(H + b"\xCC" * sl); return blk.at(hl), blk
+        if pl == "sig_hash":
+            blk = x.buf(b"\xCC" * sl + H); return blk, blk.at(sl)
+        if pl == "overlap_1":
+            blk = x.buf(H + b"\xCC" * (sl - 1)); return blk.at(hl - 1), blk          # the last octet of hash is the first of sig
+        if pl == "sig_inside_hash_end":
+            blk = x.buf(b"\xCC" * (sl - 1) + H); return blk, blk.at(sl - 1)
+        return x.out(sl), x.buf(H)
+
+    def e_place(v):
+        return ("ERR_BAD_INPUT",) if v.get("place", "apart") in ("overlap_1", "sig_inside_hash_end") else None
+
     def sign(x, c, v):
         l, P = prep(x, c, v)
         oid, oid_len = oid_of(v["oid"])
-        return pfx + "Sign", [x.out(siglen(l)), fin(x, P, l, v), x.buf(oid), oid_len, data(x, c, l // 4, "h"), x.buf(priv_of(c, l, v["priv"]))] + rng_args(x, c, v, l)
+        S_, H_ = sig_hash(x, c, v, l)
+        return pfx + "Sign", [S_, fin(x, P, l, v), x.buf(oid), oid_len, H_, x.buf(priv_of(c, l, v["priv"]))] + rng_args(x, c, v, l)
 
     def sign2(x, c, v):
         l, P = prep(x, c, v)
         oid, oid_len = oid_of(v["oid"])
         t = data(x, c, v["t_len"], "t") if v["t_len"] or c["L"] % 2 else None
-        return pfx + "Sign2", [x.out(siglen(l)), fin(x, P, l, v), x.buf(oid), oid_len, data(x, c, l // 4, "h"), x.buf(priv_of(c, l, v["priv"])), t, v["t_len"]]
-    add(pfx + "Sign", lambda c: {"l": L(c), "oid": "ok", "priv": "ok", "rng": "ok"}, {"l": LS, "oid": OID_CLS, "priv": PRIV_CLS, "rng": ["ok", "null", "ff"]},
-        lambda v, c: merge(e_l(v, L(c)), e_oid(v), e_priv(v), e_rng(v)), sign)
-    add(pfx + "Sign2", lambda c: {"l": L(c), "oid": "ok", "priv": "ok", "t_len": c["L"] % 40}, {"l": LS, "oid": OID_CLS, "priv": PRIV_CLS, "t_len": [0, 1, 31, 32, 33, 100]},
-        lambda v, c: merge(e_l(v, L(c)), e_oid(v), e_priv(v)), sign2)
+        S_, H_ = sig_hash(x, c, v, l)
+        return pfx + "Sign2", [S_, fin(x, P, l, v), x.buf(oid), oid_len, H_, x.buf(priv_of(c, l, v["priv"])), t, v["t_len"]]
+    PLACES = ["apart", "hash_sig", "sig_hash", "overlap_1", "sig_inside_hash_end"]
+    add(pfx + "Sign", lambda c: {"l": L(c), "oid": "ok", "priv": "ok", "rng": "ok", "place": "apart"}, {"l": LS, "oid": OID_CLS, "priv": PRIV_CLS, "rng": ["ok", "null", "ff"], "place": PLACES},
+        lambda v, c: merge(e_l(v, L(c)), e_oid(v), e_priv(v), e_rng(v), e_place(v)), sign)
+    add(pfx + "Sign2", lambda c: {"l": L(c), "oid": "ok", "priv": "ok", "t_len": c["L"] % 40, "place": "apart"}, {"l": LS, "oid": OID_CLS, "priv": PRIV_CLS, "t_len": [0, 1, 31, 32, 33, 100], "place": PLACES},
+        lambda v, c: merge(e_l(v, L(c)), e_oid(v), e_priv(v), e_place(v)), sign2)
 
     # ---- Verify: "\expect{ERR_BAD_PARAMS}", "\expect{ERR_BAD_OID}", "\expect{ERR_BAD_PUBKEY}", "\remark При нарушении ограничений на ЭЦП возвращается код ERR_BAD_SIG."
     def mk_sig(x, c, P, l, d, H, oid, oid_len):
